@@ -459,16 +459,24 @@ func (h *harness) emit(ev, b, res string, async bool) map[string]any {
 		which = ev
 	}
 	cc, nn := h.drain(which)
-	line := map[string]any{"ev": ev, "b": b, "res": res, "cc": cc, "nn": nn}
+	line := map[string]any{"ev": ev, "b": b, "res": res, "cc": cc, "nn": nn, "msg": lastMsg}
+	lastMsg = ""
 	h.project(line)
 	h.lines = append(h.lines, line)
 	h.stats["ev_"+ev]++
 	return line
 }
 
+// lastMsg: error text of the last failed call (informational, not bound by the trace spec)
+var lastMsg string
+
 func resOf(err error) string {
 	if err == nil {
 		return "ok"
+	}
+	lastMsg = err.Error()
+	if len(lastMsg) > 160 {
+		lastMsg = lastMsg[:160]
 	}
 	return "err"
 }
@@ -562,15 +570,8 @@ func (h *harness) accept(name string) {
 func (h *harness) process() {
 	name := h.inflight
 	h.gate <- struct{}{}
-	select {
-	case got := <-h.processed:
-		if got != name {
-			h.t.Fatalf("driver: processed %s, expected %s", got, name)
-		}
-	case <-time.After(watchdog):
-		h.t.Fatalf("driver: block %s was not processed within %s", name, watchdog)
-	}
-	// setLastProcessed runs right after the notification returns
+	// processAccept: Chain.AcceptBlock returns, accepted subscribers are notified, then setLastProcessed.
+	// lastProcessed == name therefore means the step is complete, whether or not a notification was sent.
 	deadline := time.Now().Add(watchdog)
 	for {
 		lp, err := h.vm.GetConsensusIndex().GetLastAccepted(h.ctx)
@@ -578,9 +579,16 @@ func (h *harness) process() {
 			break
 		}
 		if time.Now().After(deadline) {
-			break // logged as it is; the trace spec decides
+			h.t.Fatalf("driver: block %s was not processed within %s", name, watchdog)
 		}
 		time.Sleep(20 * time.Microsecond)
+	}
+	for drained := false; !drained; {
+		select {
+		case <-h.processed:
+		default:
+			drained = true
+		}
 	}
 	h.inflight = ""
 	h.emit("process", name, "ok", true)
@@ -1038,6 +1046,9 @@ func TestVerifSnowVMRecord(t *testing.T) {
 			continue
 		}
 		kind := kinds[i%len(kinds)]
+		if tk := os.Getenv("VERIF_TAIL_KIND"); tk != "" && i >= n-envInt("VERIF_TAIL", 0) {
+			kind = tk // the last VERIF_TAIL scenarios are of this kind
+		}
 		h := runScenario(t, i, seed*1000003+int64(i), kind, steps)
 		h.write(filepath.Join(out, fmt.Sprintf("sc%05d.ndjson", i)), map[string]any{"kind": kind, "no": i})
 		for k, v := range h.stats {
